@@ -352,6 +352,39 @@ fn main()
 				emit(format!("S {}", fmt_arg(&bin(5, bin(5, id("R0"), c(3)), c(5)))), &mut out);
 				emit(format!("G {} ; {}", env1("X", "L5"), fmt_arg(&f10)), &mut out);
 				emit(format!("G {} ; {}", env1("X", "L4"), fmt_arg(&f11)), &mut out);
+				// audit corpus: Sequence / Function / Address nodes (the random trees have none but the leaf [R1]): the try_fold arms
+				// of neutralize, simplify and evaluate (first error wins, first deferral cause wins, no raw step on the list node
+				// itself), Address around an expression and around an ill-typed operand, list nodes as operands
+				{
+					let seq = |v: Vec<Arg>| Argument::Sequence(v);
+					let fun = |n: &str, v: Vec<Arg>| Argument::Function{name: trion::asm::arcob::Arcob::Arced(n.to_string().into()), args: v};
+					let adr = |a: Arg| Argument::Address(Box::new(a));
+					let ovf = || bin(0, c(i64::MAX), c(1));
+					let dz = || bin(3, c(1), c(0));
+					let mut ts: Vec<Arg> = vec![seq(vec![]), seq(vec![c(1)]), seq(vec![bin(0, c(1), c(2)), bin(0, id("X"), c(0))]), seq(vec![ovf(), st("s")]), seq(vec![id("Q"), dz()]),
+						seq(vec![dz(), id("Q")]), seq(vec![id("W"), id("X"), id("Y")]), seq(vec![id("X"), id("W")]), seq(vec![id("W"), id("Q")]), seq(vec![id("Q"), id("W")]),
+						seq(vec![seq(vec![bin(2, c(2), c(3))]), fun("g", vec![neg(c(5))])]), seq(vec![bin(0, id("X"), neg(id("Y")))]), seq(vec![bin(0, neg(id("X")), neg(neg(c(3))))]),
+						fun("f", vec![]), fun("f", vec![c(1)]), fun("f", vec![bin(0, c(1), c(2)), bin(1, c(0), id("X"))]), fun("f", vec![id("W"), bin(0, id("X"), c(1))]),
+						fun("f", vec![bin(0, id("K0"), c(1)), id("W")]), fun("R0", vec![c(1)]), fun("f", vec![id("R0"), id("sp")]), fun("f", vec![seq(vec![ovf()])]),
+						adr(c(1)), adr(bin(0, id("R0"), c(4))), adr(bin(0, id("R0"), bin(0, id("X"), c(4)))), adr(bin(0, bin(0, id("R0"), c(4)), c(4))), adr(bin(0, bin(0, id("R0"), id("X")), c(4))),
+						adr(adr(id("R0"))), adr(st("s")), adr(seq(vec![])), adr(seq(vec![c(1)])), adr(fun("f", vec![])), adr(neg(c(i64::MIN))), adr(bin(0, id("R0"), neg(c(4)))),
+						adr(bin(1, id("R0"), c(-4))), adr(bin(0, id("R0"), c(i64::MIN))), adr(bin(1, c(0), id("R0"))), adr(id("X")), adr(id("W")), adr(id("Q")), adr(bin(0, id("R0"), id("W"))),
+						neg(adr(id("R0"))), not(adr(id("R0"))), neg(seq(vec![])), not(seq(vec![])), neg(fun("f", vec![])), not(fun("f", vec![])), neg(neg(st("s")))];
+					for op in 0..10
+					{
+						ts.push(bin(op, seq(vec![c(1)]), c(1))); ts.push(bin(op, c(1), seq(vec![c(1)]))); ts.push(bin(op, fun("f", vec![c(1)]), c(1))); ts.push(bin(op, id("X"), fun("f", vec![c(0)])));
+						ts.push(bin(op, adr(id("R0")), c(1))); ts.push(bin(op, c(1), adr(id("R0")))); ts.push(bin(op, st("a"), id("Q"))); ts.push(bin(op, id("Q"), st("a")));
+						ts.push(bin(op, dz(), st("a"))); ts.push(bin(op, st("a"), dz())); ts.push(bin(op, bin(op, fun("f", vec![]), c(3)), c(5))); ts.push(bin(op, c(5), bin(op, c(3), fun("f", vec![]))));
+					}
+					let env = format!("{} {} {} {}", env1("K0", "F5"), env1("X", "L7"), env1("Y", "L-3"), env1("W", "D"));
+					for t in &ts
+					{
+						let txt = fmt_arg(t);
+						emit(format!("S {}", txt), &mut out);
+						emit(format!("N {}", txt), &mut out);
+						emit(format!("G {} ; {}", env, txt), &mut out);
+					}
+				}
 				// forced: two constants around each mergeable operator with a symbolic operand on either side
 				let syms = [("X", "L"), ("R0", ""), ("K0", "F")];
 				let cs: [i64; 9] = [0, 1, -1, 2, 3, -5, 7, i64::MAX, i64::MIN];
